@@ -12,40 +12,47 @@ res_path = os.path.join(V, "seeded", "RESULTS.json")
 results = json.load(open(res_path)) if os.path.exists(res_path) else {}
 def sh(cmd, **kw):
     return subprocess.run(cmd, stdout=subprocess.PIPE, stderr=subprocess.STDOUT, text=True, **kw)
-if sh(["git", "-C", "/repo", "status", "--porcelain"]).stdout.strip():
-    sys.exit("/repo has uncommitted changes; refusing to run")
-for sid in ids:
-    d = os.path.join(V, "seeded", sid)
-    meta = json.load(open(os.path.join(d, "meta.json")))
-    prop = meta["property"]
-    ap = sh(["git", "-C", "/repo", "apply", "--whitespace=nowarn", os.path.join(d, "patch.diff")])
-    if ap.returncode != 0:
-        ap = sh(["git", "-C", "/repo", "apply", "--3way", "--whitespace=nowarn", os.path.join(d, "patch.diff")])
-    if ap.returncode != 0:
-        print("%-10s patch does not apply: %s" % (sid, ap.stdout.strip()[:200]))
-        results[sid] = {"property": prop, "applied": False}
-        sh(["git", "-C", "/repo", "checkout", "--", "."]); sh(["git", "-C", "/repo", "reset", "-q"])
-        continue
-    try:
-        t0 = time.time()
-        r = sh([os.path.join(V, "check"), prop, "--tier", tier], cwd=V, env=dict(os.environ, VERIF_BUILD=os.path.join(V, ".build", "seeded")))
-        lines = [l for l in r.stdout.splitlines() if l.startswith("VIOLATION")]
-        why = [l for l in r.stdout.splitlines() if "violation:" in l][:2]
-        results[sid] = {"property": prop, "applied": True, "caught": bool(lines), "exit": r.returncode, "tier": tier,
-                        "violation_lines": lines[:3], "why": [w[:300] for w in why], "wall_s": round(time.time() - t0, 1)}
-        print("%-10s %-4s %s  (%.0fs) %s" % (sid, prop, "CAUGHT" if lines else "missed", time.time() - t0, (why[0][:140] if why else "")))
-        meta.setdefault("id", sid)
-        meta["ran"] = ("seeding agent: with patch.diff applied `go build ./... && go test -vet=off -count=1 ./...` passes and demo_test.go fails; without it the demo passes. "
-                       "coordinator: git -C /repo apply patch.diff; ./check %s --tier %s; git -C /repo checkout -- ." % (prop, tier))
-        meta["caught_by_check"] = bool(lines)
-        meta["caught_by"] = [w.split("] ", 1)[-1][:220] for w in why]
-        json.dump(meta, open(os.path.join(d, "meta.json"), "w"), indent=1)
-    finally:
-        sh(["git", "-C", "/repo", "reset", "-q"])
-        sh(["git", "-C", "/repo", "checkout", "--", "."])
-        sh(["git", "-C", "/repo", "clean", "-fdq"])
+# the changed tree lives in a scratch worktree (VERIF_REPO), so that /repo itself is never disturbed while other
+# checks run against it; the evidence of these runs goes to a scratch directory (VERIF_EVIDENCE)
+WT = "/tmp/seedrun-%d/repo" % os.getpid()
+os.makedirs(os.path.dirname(WT), exist_ok=True)
+sh(["git", "-C", "/repo", "worktree", "add", "--detach", WT, "HEAD"])
+env = dict(os.environ, VERIF_REPO=WT, VERIF_BUILD=os.path.join(V, ".build", "seeded-%d" % os.getpid()),
+           VERIF_EVIDENCE=os.path.join(V, ".build", "seeded-evidence"))
+try:
+    for sid in ids:
+        d = os.path.join(V, "seeded", sid)
+        meta = json.load(open(os.path.join(d, "meta.json")))
+        prop = meta["property"]
+        ap = sh(["git", "-C", WT, "apply", "--whitespace=nowarn", os.path.join(d, "patch.diff")])
+        if ap.returncode != 0:
+            ap = sh(["git", "-C", WT, "apply", "--3way", "--whitespace=nowarn", os.path.join(d, "patch.diff")])
+        if ap.returncode != 0:
+            print("%-10s patch does not apply: %s" % (sid, ap.stdout.strip()[:200]))
+            results[sid] = {"property": prop, "applied": False}
+            sh(["git", "-C", WT, "reset", "-q", "--hard"]); sh(["git", "-C", WT, "clean", "-fdq"])
+            continue
+        try:
+            t0 = time.time()
+            r = sh([os.path.join(V, "check"), prop, "--tier", tier], cwd=V, env=env)
+            lines = [l for l in r.stdout.splitlines() if l.startswith("VIOLATION")]
+            why = [l for l in r.stdout.splitlines() if "violation:" in l][:2]
+            results[sid] = {"property": prop, "applied": True, "caught": bool(lines), "exit": r.returncode, "tier": tier,
+                            "violation_lines": [l.replace(V + "/", "") for l in lines[:3]], "why": [w[:300] for w in why], "wall_s": round(time.time() - t0, 1)}
+            print("%-10s %-4s %s  (%.0fs) %s" % (sid, prop, "CAUGHT" if lines else "missed", time.time() - t0, (why[0][:140] if why else "")))
+            meta.setdefault("id", sid)
+            meta["ran"] = ("seeding agent: with patch.diff applied `go build ./... && go test -vet=off -count=1 ./...` passes and demo_test.go fails; without it the demo passes "
+                           "(re-confirmed by the coordinator in a scratch worktree, see confirmed_by_coordinator). "
+                           "coordinator: patch applied to a scratch worktree of /repo's HEAD; VERIF_REPO=<worktree> ./check %s --tier %s; worktree removed" % (prop, tier))
+            meta["caught_by_check"] = bool(lines)
+            meta["caught_by"] = [w.split("] ", 1)[-1][:220] for w in why]
+            json.dump(meta, open(os.path.join(d, "meta.json"), "w"), indent=1)
+        finally:
+            sh(["git", "-C", WT, "reset", "-q", "--hard"])
+            sh(["git", "-C", WT, "clean", "-fdq"])
+finally:
+    sh(["git", "-C", "/repo", "worktree", "remove", "--force", WT])
+    import shutil
+    shutil.rmtree(os.path.dirname(WT), ignore_errors=True)
+    shutil.rmtree(env["VERIF_BUILD"], ignore_errors=True)
 json.dump(results, open(res_path, "w"), indent=1, sort_keys=True)
-# evidence files were rewritten by the runs on changed trees: regenerate them on the unchanged tree
-for prop in sorted({json.load(open(os.path.join(V, "seeded", sid, "meta.json")))["property"] for sid in ids}):
-    r = sh([os.path.join(V, "check"), prop, "--tier", "quick"], cwd=V)
-    print("clean re-run %s: exit %d" % (prop, r.returncode))
